@@ -167,7 +167,7 @@ namespace c11
     d.set("type", "bezier"); d.set("points", np); d.set("closed", closed); d.set("orient", ori); d.set("params", par); d.set("max_ctrl", maxc);
     return b;
   }
-  template<typename M> inline std::unique_ptr<Atlas::ChartBase<M>> gen_chart(Tape& t, Ctx& c, int vcls, J& d)
+  template<typename M> inline std::unique_ptr<Atlas::ChartBase<M>> gen_chart(Tape& t, Ctx& c, int vcls, J& d, bool allow_surfmesh = false)
   {
     if constexpr(M::world_dim == 2)
     {
@@ -178,7 +178,7 @@ namespace c11
     {
       typedef typename SubMeshOf<M>::Type SM;
       int k = t.pick({2, 2, 2, 2});
-      if(k == 1 && c.excl("c11-surfmesh-write")) k = 0;   // known finding: SurfaceMesh::write() omits the final newline
+      if(k == 1 && c.excl("c11-surfmesh-write") && !allow_surfmesh) k = 0;   // known finding: SurfaceMesh::write() omits the final newline
       if(k == 0)
       {
         c.label("chart:sphere"); double r = std::fabs(t.real_nz(vcls == 0 ? 0 : 2)); if(r < 1e-3) r = 1e-3; d.set("type", "sphere"); d.set("r", r);
@@ -387,7 +387,7 @@ namespace c11
     J jc = J::arr(); std::vector<std::string> chart_names;
     for(int i = 0; i < nch; ++i)
     {
-      J cd = J::obj(); auto ch = gen_chart<M>(t, c, vcls, cd); std::string nm = "g" + gen_name(t, i, false); cd.set("name", nm);
+      J cd = J::obj(); auto ch = gen_chart<M>(t, c, vcls, cd, o.small); std::string nm = "g" + gen_name(t, i, false); cd.set("name", nm);
       if(x.atlas->add_mesh_chart(nm, std::move(ch))) { chart_names.push_back(nm); jc.add(cd); }
     }
     d.set("gen_charts", jc);
@@ -535,7 +535,8 @@ namespace c11
         else if(sub == 6) {   // bezier control point count of one line; 0 -> -1 is the class of finding c11-bezier-neg-ctrl
           int i = pick_line([&](const SLine& l) { return content_in(l, "Bezier", "Points"); }); if(i < 0) break;
           auto tk = split_ws(sk.lines[(size_t)i].txt); unsigned long long v = 0; parse_index(tk[0], v); bool pl = (v == 0 && c.excl("c11-bezier-neg-ctrl")) || t.flag(1, 2);
-          tk[0] = pl ? std::to_string(v + 1) : (v == 0 ? std::string("-1") : std::to_string(v - 1));
+          tk[0] = pl ? std::to_string(v + 1) : std::to_string(v - 1);
+          if(!pl && v == 0) tk.assign(1, "-1");   // a line holding nothing but a negative count: (size_t(-1)+1)*2+1 == 1 token, the length check passes
           f.text = replace_range(w, sk.lines[(size_t)i].beg, sk.lines[(size_t)i].end, join(tk)); f.ok = true; f.kind = (!pl && v == 0) ? "count:bezier-ctrl-negative" : "count:bezier-ctrl"; f.detail = pl ? "+1" : "-1"; }
         else { int i = pick_line([&](const SLine& l) { return is_open(l, "SurfaceMesh"); }); if(i < 0) break;
           const char* key = t.flag(1, 2) ? "verts" : "trias"; unsigned long long v = 0; parse_index(sk.lines[(size_t)i].attrs[key], v); bool pl; std::string nv = pm1(v, pl); f.ok = set_attr(f.text, sk.lines[(size_t)i], key, nv); f.kind = std::string("count:surfmesh-") + key; f.detail = pl ? "+1" : "-1"; }
@@ -638,6 +639,9 @@ namespace c11
     Bundle<M> x; J d = J::obj(); CaseOpts o; o.small = true;
     gen_bundle<M>(t, c, x, d, o);
     std::string w = write_bundle<M>(x, o.skip_internal, o.indent);
+    // known finding c11-surfmesh-write: the writer forgets the line break behind </SurfaceMesh>; repaired here on the text so
+    // that the SurfaceMesh fault classes stay reachable while that finding is switched off
+    if(c.excl("c11-surfmesh-write")) { size_t p = 0; while((p = w.find("</SurfaceMesh>", p)) != std::string::npos) { p += 14; if(p < w.size() && w[p] != '\n') w.insert(p, "\n"); } }
     // the base file must be valid (this is property (A), checked here without the structural comparison)
     { Bundle<M> y; try { parse_text<M>(w, y); } catch(const std::exception& e) { throw vf::Discard{std::string("base file rejected: ") + e.what()}; } }
     Fault f = gen_fault<M>(t, c, w, d);
